@@ -7,6 +7,13 @@
   disagreement is reported as MODEL-SPEC-DISAGREE (a machinery error).
 
     @ matrix <rows> <cols>                  leaf matrix with ids = flat offsets  → ok size=RxC
+    @ cmatrix <rows> <cols>                 column-major source (MatrixRefTensor over a TensorAccess
+                                            of a <cols>×<rows> tensor), ids = offsets  → ok size=RxC
+    layout                                  data_layout()                       → row_major | column_major | other
+    eq <same|cell:k|rows|cols> lhs=<self|rm|cm> rhs=<rm|cm>
+                                            `==` between the view (or a copy of it in the given
+                                            layout) and a copy (modified at the k-th element / one
+                                            more row / column) in the given layout    → true | false
     mrange <rs>:<rl> <cs>:<cl>              MatrixRange::from(current, …)       → ok size=RxC
     mreverse <0|1> <0|1>                    MatrixReverse::from                 → ok size=RxC
     mmap                                    MatrixMap::from                     → ok size=RxC
@@ -187,6 +194,41 @@ def step (s : State) (toks : List String) : State × String :=
     match rS.toNat?, cS.toNat? with
     | some r, some c => install {} (.leaf r c)
     | _, _ => ({}, "bad-op")
+  | "@" :: "cmatrix" :: rS :: cS :: _ =>
+    match rS.toNat?, cS.toNat? with
+    | some r, some c => install {} (.leafCM r c)
+    | _, _ => ({}, "bad-op")
+  | "layout" :: _ =>
+    match s.expr with
+    | some e =>
+      let sh : MLayout → String := fun
+        | .rowMajor => "row_major" | .columnMajor => "column_major" | .other => "other"
+      (s, both (sh e.layoutSpec) (sh e.layout))
+    | none => (s, "no-view")
+  | "eq" :: kind :: rest =>
+    match s.expr with
+    | none => (s, "no-view")
+    | some e =>
+      let cells := scanSpec e
+      let (rows, cols) := e.size
+      let lay : String → MLayout := fun t =>
+        if t = "cm" then .columnMajor else if t = "rm" then .rowMajor else e.layout
+      let left : Grid := ⟨rows, cols, lay ((optArg "lhs" rest).getD "self"),
+        fun i j => cells.getD (i * cols + j) 0⟩
+      let rl := lay ((optArg "rhs" rest).getD "rm")
+      let right : Grid :=
+        if kind = "rows" then ⟨rows + 1, cols, rl, fun i j => cells.getD (i * cols + j) 0⟩
+        else if kind = "cols" then ⟨rows, cols + 1, rl, fun i j => if j < cols then cells.getD (i * cols + j) 0 else 0⟩
+        else
+          match (kind.splitOn ":") with
+          | ["cell", kS] =>
+            let k := kS.toNat?.getD 0
+            ⟨rows, cols, rl, fun i j => cells.getD (i * cols + j) 0 + (if i * cols + j = k then 1 else 0)⟩
+          | _ => ⟨rows, cols, rl, fun i j => cells.getD (i * cols + j) 0⟩
+      let specAns := decide (left.rows = right.rows) && decide (left.columns = right.columns) &&
+        ((List.range left.rows).all fun i => (List.range left.columns).all fun j =>
+          left.elem i j == right.elem i j)
+      (s, both (toString specAns) (toString (matrixEquality left right)))
   | "@" :: "partition" :: rS :: cS :: rpS :: cpS :: _ =>
     match rS.toNat?, cS.toNat?, parseNatList rpS, parseNatList cpS with
     | some r, some c, some rp, some cp =>
